@@ -5,6 +5,12 @@
   set-iteration order and every flag combination, and never leaves with another exception.
 -/
 import CG.Lint
+import CG.Spec
+import CG.Props.C05
+import CG.Props.C13
+import CG.Props.C03
+import CG.Props.C18
+import CG.Proofs.LintLink
 namespace CG.C20
 
 /-- the static tie: tables extracted from the sources are the ones these proofs are about -/
@@ -192,6 +198,321 @@ theorem lint_order_irrelevant (c : Circuit) (fl : LintFlags) (o1 o2 : Ord) (h1 :
   · exfalso; have := a.mpr (hv.mpr (b.mp h')); rw [h] at this; cases this
   · exfalso; have := b.mpr (hv.mp (a.mp h)); rw [h'] at this; cases this
   · rw [h, h']
+
+/-! ### second half: what the library produces passes lint
+
+`LintClean` (CG/Spec.lean) is the specification-level notion of a legally wired circuit that the transform theorems
+(C04, C05, C09, C10, C13, C18 …) establish for their results.  The theorems below connect it with the linter model:
+a `LintClean` circuit whose blackbox registry matches its pin nodes is accepted by `lint` with default flags, for every
+iteration order; conversely acceptance implies every `LintClean` clause that lint looks at. -/
+
+/-- the registry and the dotted node names agree: every dotted node belongs to a recorded instance and every recorded
+    instance has all its pin nodes with the right types -/
+def RegistryOK (c : Circuit) : Prop :=
+  (∀ g ∈ c.nodeNames, hasDot g = true → c.bbs.lookup (dotPrefix g) ≠ none) ∧ ∀ p ∈ c.bbs, ¬ PinViolates c p
+
+/-- glue: a node with a known type violates a rule iff one of the listed clauses holds -/
+private theorem nodeViolates_of_attr {c : Circuit} {fl : LintFlags} {g : Name} {a : Attr} {t : String}
+    (ha : c.attr? g = some a) (ht : a.ty = some t) :
+    NodeViolates c fl g ↔
+      (t ∉ Expected.supported_types
+      ∨ (hasDot g = true ∧ c.bbs.lookup (dotPrefix g) = none)
+      ∨ (t ∈ zeroIn ∧ 0 < (c.fanin g).length)
+      ∨ (t = "bb_output" ∧ (1 < (c.fanout g).length ∨ ∃ f ∈ c.fanout g, c.ty? f ≠ some "buf"))
+      ∨ (t ∈ singleIn ∧ 1 < (c.fanin g).length)
+      ∨ (fl.undriven = true ∧ (t ∈ singleIn ∨ t ∈ multiIn) ∧ (c.fanin g).length = 0)
+      ∨ (fl.singleInputGates = true ∧ t ∈ multiIn ∧ (c.fanin g).length < 2)
+      ∨ (fl.unloaded = true ∧ a.out.getD false = false ∧ c.fanout g = [])) := by
+  unfold NodeViolates
+  rw [ha]
+  obtain ⟨ty, o⟩ := a
+  simp only at ht
+  subst ht
+  exact Iff.rfl
+
+private theorem nodeViolates_of_untyped {c : Circuit} {fl : LintFlags} {g : Name} {a : Attr}
+    (ha : c.attr? g = some a) (ht : a.ty = none) : NodeViolates c fl g := by
+  unfold NodeViolates
+  rw [ha]
+  obtain ⟨ty, o⟩ := a
+  simp only at ht
+  subst ht
+  trivial
+
+/-- glue: the first clause of `RegistryOK` is the helper-level predicate `LintLink.DotsRegistered` -/
+theorem registryOK_iff (c : Circuit) :
+    RegistryOK c ↔ LintLink.DotsRegistered c ∧ ∀ p ∈ c.bbs, ¬ PinViolates c p := Iff.rfl
+
+/-- a lint-clean circuit with a consistent registry breaks no rule under the default flags -/
+theorem not_violates_of_clean (c : Circuit) (hc : LintClean c) (hr : RegistryOK c) : ¬ Violates c {} := by
+  rintro (⟨g, hg, hv⟩ | ⟨p, hp, hv⟩)
+  · have hhas : c.has g = true := (Circuit.has_iff_mem c g).2 hg
+    obtain ⟨a, ha⟩ := Limit.attr_of_has hhas
+    obtain ⟨t, ht, hsup⟩ := hc.typed _ (Circuit.attr?_mem ha)
+    have hty : c.ty? g = some t := by unfold Circuit.ty?; rw [ha]; exact ht
+    rw [nodeViolates_of_attr ha ht] at hv
+    rcases hv with h0 | ⟨h1, h2⟩ | ⟨h1, h2⟩ | ⟨h1, h2⟩ | ⟨h1, h2⟩ | ⟨_, h1, h2⟩ | ⟨h1, _⟩ | ⟨h1, _⟩
+    · exact h0 hsup
+    · exact hr.1 g hg h1 h2
+    · rw [hc.noFanin g t hty h1] at h2
+      exact absurd h2 (by decide)
+    · subst h1
+      rcases h2 with h2 | ⟨f, hf, h2⟩
+      · cases hfo : c.fanout g with
+        | nil => rw [hfo] at h2; exact absurd h2 (by decide)
+        | cons f fs =>
+          have he : (g, f) ∈ c.edges := Circuit.mem_fanout.mp (by rw [hfo]; exact List.mem_cons_self)
+          have : (c.fanout g).length ≤ 1 := (hc.bbOut (g, f) he hty).2
+          omega
+      · have he : (g, f) ∈ c.edges := Circuit.mem_fanout.mp hf
+        exact h2 (hc.bbOut (g, f) he hty).1
+    · have := hc.single g t hty h1
+      omega
+    · rcases h1 with h1 | h1
+      · have := hc.single g t hty h1
+        omega
+      · have := hc.multi g t hty h1
+        omega
+    · cases h1
+    · cases h1
+  · exact hr.2 p hp hv
+
+/-- **C20 (second half, link).** a specification-level lint-clean circuit with a consistent registry passes `lint`
+    (default flags: undriven=True, unloaded=False, single_input_gates=False), for every set-iteration order -/
+theorem lint_accepts (c : Circuit) (ord : Ord) (h : OrdOK ord) (hc : LintClean c) (hr : RegistryOK c) :
+    lint c {} ord = Outcome.ok := by
+  rcases lint_ok_or_valueError c {} ord with hok | hbad
+  · exact hok
+  · exact absurd ((lint_iff c {} ord h).mp hbad) (not_violates_of_clean c hc hr)
+
+/-- conversely, what lint accepts is lint-clean in the sense of the specification, except for the one clause lint does
+    not look at (a blackbox input pin with fan-out, cf. known finding K22) -/
+theorem lintClean_of_lint_ok (c : Circuit) (ord : Ord) (h : OrdOK ord) (hwf : WF c)
+    (hnb : ∀ e ∈ c.edges, c.ty? e.1 ≠ some "bb_input") (hok : lint c {} ord = Outcome.ok) :
+    LintClean c ∧ RegistryOK c := by
+  have hnv : ¬ Violates c {} := fun hv => by
+    have := (lint_iff c {} ord h).mpr hv
+    rw [hok] at this
+    cases this
+  have hnode : ∀ g, c.has g = true → ¬ NodeViolates c {} g :=
+    fun g hg hv => hnv (Or.inl ⟨g, (Circuit.has_iff_mem c g).1 hg, hv⟩)
+  have hpin : ∀ p ∈ c.bbs, ¬ PinViolates c p := fun p hp hv => hnv (Or.inr ⟨p, hp, hv⟩)
+  -- every clause lint checks, for a node of known type
+  have key : ∀ g t, c.ty? g = some t →
+      t ∈ Expected.supported_types
+      ∧ (hasDot g = true → c.bbs.lookup (dotPrefix g) ≠ none)
+      ∧ (t ∈ zeroIn → c.fanin g = [])
+      ∧ (t = "bb_output" → (c.fanout g).length ≤ 1 ∧ ∀ f ∈ c.fanout g, c.ty? f = some "buf")
+      ∧ (t ∈ singleIn → (c.fanin g).length = 1)
+      ∧ (t ∈ multiIn → 1 ≤ (c.fanin g).length) := by
+    intro g t hty
+    have hhas := Limit.has_of_ty hty
+    obtain ⟨a, ha⟩ := Limit.attr_of_has hhas
+    have ht : a.ty = some t := by unfold Circuit.ty? at hty; rw [ha] at hty; exact hty
+    have hv := hnode g hhas
+    rw [nodeViolates_of_attr ha ht] at hv
+    refine ⟨?_, ?_, ?_, ?_, ?_, ?_⟩
+    · exact Classical.byContradiction fun h0 => hv (Or.inl h0)
+    · intro h1 h2
+      exact hv (Or.inr (Or.inl ⟨h1, h2⟩))
+    · intro h1
+      cases hfi : c.fanin g with
+      | nil => rfl
+      | cons x xs =>
+        exact absurd (Or.inr (Or.inr (Or.inl ⟨h1, by rw [hfi]; simp⟩))) hv
+    · intro h1
+      refine ⟨?_, ?_⟩
+      · apply Nat.le_of_not_lt
+        intro h2
+        exact hv (Or.inr (Or.inr (Or.inr (Or.inl ⟨h1, Or.inl h2⟩))))
+      · intro f hf
+        exact Classical.byContradiction fun h2 =>
+          hv (Or.inr (Or.inr (Or.inr (Or.inl ⟨h1, Or.inr ⟨f, hf, h2⟩⟩))))
+    · intro h1
+      have a1 : ¬ 1 < (c.fanin g).length := fun h2 =>
+        hv (Or.inr (Or.inr (Or.inr (Or.inr (Or.inl ⟨h1, h2⟩)))))
+      have a2 : ¬ (c.fanin g).length = 0 := fun h2 =>
+        hv (Or.inr (Or.inr (Or.inr (Or.inr (Or.inr (Or.inl ⟨rfl, Or.inl h1, h2⟩))))))
+      omega
+    · intro h1
+      have a2 : ¬ (c.fanin g).length = 0 := fun h2 =>
+        hv (Or.inr (Or.inr (Or.inr (Or.inr (Or.inr (Or.inl ⟨rfl, Or.inr h1, h2⟩))))))
+      omega
+  refine ⟨⟨hwf, ?_, ?_, ?_, ?_, ?_, hnb⟩, ?_, hpin⟩
+  · intro p hp
+    have ha : c.attr? p.1 = some p.2 := Circuit.attr?_of_mem hwf.nodup (by exact hp)
+    cases hty : p.2.ty with
+    | none => exact absurd (nodeViolates_of_untyped ha hty) (hnode p.1 (Limit.has_of_attr ha))
+    | some t =>
+      have : c.ty? p.1 = some t := by unfold Circuit.ty?; rw [ha]; exact hty
+      exact ⟨t, rfl, (key p.1 t this).1⟩
+  · intro n t hty hs
+    exact (key n t hty).2.2.1 hs
+  · intro n t hty hs
+    exact (key n t hty).2.2.2.2.1 hs
+  · intro n t hty hs
+    exact (key n t hty).2.2.2.2.2 hs
+  · intro e he hty
+    have k := (key e.1 _ hty).2.2.2.1 rfl
+    exact ⟨k.2 e.2 (Circuit.mem_fanout.mpr he), k.1⟩
+  · intro g hg hd
+    have hhas : c.has g = true := (Circuit.has_iff_mem c g).2 hg
+    obtain ⟨a, ha⟩ := Limit.attr_of_has hhas
+    cases hty : a.ty with
+    | none => exact absurd (nodeViolates_of_untyped ha hty) (hnode g hhas)
+    | some t =>
+      have : c.ty? g = some t := by unfold Circuit.ty?; rw [ha]; exact hty
+      exact (key g t this).2.1 hd
+
+/-- witness for `lint_misses_bb_input_fanout`: the blackbox input pin `u.i` drives the buffer `o` -/
+def bbFan : Circuit :=
+  { nodes := [("a", { ty := some "input", out := some false }), ("u.i", { ty := some "bb_input", out := some false }),
+              ("o", { ty := some "buf", out := some true })],
+    edges := [("a", "u.i"), ("u.i", "o")], bbs := [("u", { name := "ff", ins := ["i"], outs := [] })] }
+
+/-- the clause lint does not look at is really not looked at: a circuit that lint accepts and that is not `LintClean` -/
+theorem lint_misses_bb_input_fanout :
+    ∃ c : Circuit, WF c ∧ lint c {} id = Outcome.ok ∧ ¬ LintClean c := by
+  refine ⟨bbFan, ⟨by decide, by decide, by decide⟩, by decide, fun hcl => ?_⟩
+  exact absurd rfl (hcl.noBBInFanout ("u.i", "o") (by decide))
+
+/-- glue: `RegistryOK` survives an extension by nodes named after old nodes (`LintLink.DotExt`) that keeps the
+    attributes of the old nodes -/
+theorem registryOK_of_dotExt {c c' : Circuit} (hr : RegistryOK c) (hd : LintLink.DotExt c c')
+    (hattr : ∀ n, c.has n = true → c'.attr? n = c.attr? n) : RegistryOK c' := by
+  have hkeep : ∀ pin want, (c.attr? pin).bind (·.ty) = some want → (c'.attr? pin).bind (·.ty) = some want := by
+    intro pin want hp
+    cases ha : c.attr? pin with
+    | none => rw [ha] at hp; cases hp
+    | some a => rw [hattr pin (Limit.has_of_attr ha), ha]; rw [ha] at hp; exact hp
+  refine ⟨hd.registered hr.1, fun p hp hv => ?_⟩
+  rw [hd.bbs] at hp
+  apply hr.2 p hp
+  rcases hv with ⟨g, hg, hv⟩ | ⟨g, hg, hv⟩
+  · exact Or.inl ⟨g, hg, fun hc => hv (hkeep _ _ hc)⟩
+  · exact Or.inr ⟨g, hg, fun hc => hv (hkeep _ _ hc)⟩
+
+/-- **C20 (second half, transforms).** the result of `limit_fanin` / `limit_fanout` on a lint-clean circuit passes lint -/
+theorem limit_fanin_passes_lint (c : Circuit) (k : Nat) (hk : 2 ≤ k) (ord ord' : Ord) (hord : OrdOK ord) (hord' : OrdOK ord')
+    (hc : LintClean c) (hr : RegistryOK c) (hname : ∀ n, k < (c.fanin n).length → Circuit.isDigit0 n = false) :
+    ∃ c', Tx.limitFanin c k ord = .ok c' ∧ lint c' {} ord' = Outcome.ok := by
+  obtain ⟨c', hrun, _, _, _, hattr, hcl, _⟩ := C05.limit_fanin_spec c k hk ord hord hc hname
+  exact ⟨c', hrun, lint_accepts c' ord' hord' hcl
+    (registryOK_of_dotExt hr (LintLink.limitFanin_dotExt c c' k ord hord hrun) hattr)⟩
+
+theorem limit_fanout_passes_lint (c : Circuit) (k : Nat) (hk : 2 ≤ k) (ord ord' : Ord) (hord : OrdOK ord) (hord' : OrdOK ord')
+    (hc : LintClean c) (hr : RegistryOK c) (hname : ∀ n, k < (c.fanout n).length → Circuit.isDigit0 n = false) :
+    ∃ c', Tx.limitFanout c k ord = .ok c' ∧ lint c' {} ord' = Outcome.ok := by
+  obtain ⟨c', hrun, _, _, _, hattr, hcl, _⟩ := C05.limit_fanout_spec c k hk ord hord hc hname
+  exact ⟨c', hrun, lint_accepts c' ord' hord' hcl
+    (registryOK_of_dotExt hr (LintLink.limitFanout_dotExt c c' k ord hord hrun) hattr)⟩
+
+/-- glue: without blackboxes and dotted names the registry is trivially consistent -/
+theorem registryOK_of_noDots {c : Circuit} (h : LintLink.NoDots c) : RegistryOK c :=
+  ⟨h.registered, fun p hp => by rw [h.bbs] at hp; cases hp⟩
+
+/-- **C20 (second half, generators).** every arithmetic block of `logic.py` passes lint, for every width -/
+theorem logic_blocks_pass_lint (ord : Ord) (hord : OrdOK ord) :
+    (∃ c, Logic.halfAdder = .ok c ∧ lint c {} ord = Outcome.ok) ∧
+    (∃ c, Logic.fullAdder = .ok c ∧ lint c {} ord = Outcome.ok) ∧
+    (∀ w ci co, ∃ c, Logic.adder w ci co = .ok c ∧ lint c {} ord = Outcome.ok) ∧
+    (∀ w, 1 ≤ w → ∃ c, Logic.mux w = .ok c ∧ lint c {} ord = Outcome.ok) ∧
+    (∀ w, 1 ≤ w → ∃ c, Logic.popcount w = .ok c ∧ lint c {} ord = Outcome.ok) := by
+  refine ⟨?_, ?_, fun w ci co => ?_, fun w hw => ?_, fun w hw => ?_⟩
+  · obtain ⟨c, hrun, hcl, _⟩ := C13.half_adder_correct
+    exact ⟨c, hrun, lint_accepts c ord hord hcl (registryOK_of_noDots (LintLink.noDots_halfAdder c hrun))⟩
+  · obtain ⟨c, hrun, hcl, _⟩ := C13.full_adder_correct
+    exact ⟨c, hrun, lint_accepts c ord hord hcl (registryOK_of_noDots (LintLink.noDots_fullAdder c hrun))⟩
+  · obtain ⟨c, hrun, hcl, _⟩ := C13.adder_correct w ci co
+    exact ⟨c, hrun, lint_accepts c ord hord hcl (registryOK_of_noDots (LintLink.noDots_adder w ci co c hrun))⟩
+  · obtain ⟨c, k, _, hrun, hcl, _⟩ := C13.mux_correct w hw
+    exact ⟨c, hrun, lint_accepts c ord hord hcl (registryOK_of_noDots (LintLink.noDots_mux w c hrun))⟩
+  · obtain ⟨c, m, hrun, hcl, _⟩ := C13.popcount_correct w hw
+    exact ⟨c, hrun, lint_accepts c ord hord hcl (registryOK_of_noDots (LintLink.noDots_popcount w c hrun))⟩
+
+/-! ### optional extras: further producers of lint-clean circuits -/
+
+/-- glue: `RegistryOK` only depends on the graph, not on list orders -/
+theorem registryOK_of_same {a b : Circuit} (h : LintLink.Same a b) (hr : RegistryOK a) : RegistryOK b := by
+  refine ⟨h.registered hr.1, fun p hp hv => hr.2 p ((h.bbs p).2 hp) ?_⟩
+  unfold PinViolates at hv ⊢
+  simp only [h.attr]
+  exact hv
+
+/-- lint's verdict depends only on the graph: a well-formed circuit with the same attributes, wires and registry
+    entries as a lint-clean one (in any list order) passes lint -/
+theorem same_graph_passes_lint (a b : Circuit) (ord : Ord) (hord : OrdOK ord) (hattr : ∀ n, a.attr? n = b.attr? n)
+    (hedges : ∀ e, e ∈ a.edges ↔ e ∈ b.edges) (hbbs : ∀ q, q ∈ a.bbs ↔ q ∈ b.bbs) (hwf : WF b)
+    (hc : LintClean a) (hr : RegistryOK a) : lint b {} ord = Outcome.ok :=
+  lint_accepts b ord hord (LintLink.Same.lintClean ⟨hattr, hedges, hbbs⟩ hwf hc)
+    (registryOK_of_same ⟨hattr, hedges, hbbs⟩ hr)
+
+/-- a circuit the Verilog writer is specified for (`C03.Writable`) has a consistent registry -/
+theorem registryOK_of_writable {c : Circuit} (hc : C03.Writable c) : RegistryOK c := by
+  have hplain : ∀ n, C03.PlainName n → hasDot n = false := by
+    intro n hn
+    have := hn.2.2.1
+    unfold hasDot
+    simpa using this
+  refine ⟨fun g hg hd => ?_, fun q hq hv => ?_⟩
+  · have hhas : c.has g = true := (Circuit.has_iff_mem c g).2 hg
+    obtain ⟨a, ha⟩ := Limit.attr_of_has hhas
+    have hmem := Circuit.attr?_mem ha
+    by_cases hpin : a.ty = some "bb_input" ∨ a.ty = some "bb_output"
+    · obtain ⟨q, hq, g', hname, _⟩ := hc.pins (g, a) hmem hpin
+      have hq1 : hasDot q.1 = false := hplain _ (hc.pinsPresent q hq).2.2.1
+      simp only at hname
+      rw [hname, LintLink.dotPrefix_pin q.1 g' hq1, LintLink.lookup_ne_none_iff]
+      exact ⟨q, hq, rfl⟩
+    · have hn := hplain g (hc.names (g, a) hmem ⟨fun h => hpin (Or.inl h), fun h => hpin (Or.inr h)⟩)
+      rw [hn] at hd
+      cases hd
+  · obtain ⟨h1, h2, _⟩ := hc.pinsPresent q hq
+    rcases hv with ⟨g, hg, hv⟩ | ⟨g, hg, hv⟩
+    · exact hv (h1 g hg)
+    · exact hv (h2 g hg)
+
+/-- a `C03.Writable` circuit passes lint -/
+theorem writable_passes_lint (c : Circuit) (ord : Ord) (hord : OrdOK ord) (hc : C03.Writable c) :
+    lint c {} ord = Outcome.ok :=
+  lint_accepts c ord hord hc.clean (registryOK_of_writable hc)
+
+/-- **C03 corollary.** what the Verilog reader builds from the writer's output for a writable, constant-free circuit
+    passes lint, for every emission order, every reader order and every lint iteration order -/
+theorem roundtrip_passes_lint (c : Circuit) (ord ord' ord'' : Ord) (hord : OrdOK ord) (hord' : OrdOK ord')
+    (hord'' : OrdOK ord'') (hc : C03.Writable c)
+    (hnc : ∀ p ∈ c.nodes, p.2.ty ≠ some "0" ∧ p.2.ty ≠ some "1" ∧ p.2.ty ≠ some "x") :
+    ∃ wm c', Verilog.toWModule c false ord = .ok wm ∧ Verilog.transform wm.toModule (C03.bbDefs c) ord' = .ok c' ∧
+      lint c' {} ord'' = Outcome.ok := by
+  obtain ⟨wm, c', hw, ht, _, hattr, hedges, hbbs, hwf⟩ := C03.roundtrip_struct c ord ord' hord hord' hc hnc
+  exact ⟨wm, c', hw, ht, same_graph_passes_lint c c' ord'' hord'' hattr hedges hbbs hwf hc.clean
+    (registryOK_of_writable hc)⟩
+
+/-- **C18 corollary.** the result of `acyclic_unroll` passes lint for every lint iteration order (C18 states it for the
+    order the transform itself was run with) -/
+theorem acyclic_unroll_passes_lint (c a : Circuit) (ord ordF ord' : Ord) (hord : OrdOK ord) (hordF : OrdOK ordF)
+    (hord' : OrdOK ord') (hc : C18.Good c) (h : Tx.acyclicUnroll c ord ordF = .ok a) :
+    lint a {} ord' = Outcome.ok := by
+  have h1 : lint a {} ord = Outcome.ok := (C18.acyclic_unroll_shape c a ord ordF hord hordF hc h).2.1
+  rw [← h1]
+  exact lint_order_irrelevant a {} ord' ord hord' hord true
+
+/-- why there is no `miter_passes_lint` under the hypotheses of C04: `add_subcircuit` turns the inputs of both copies
+    into buffers, and an input that is not among the tied startpoints stays an undriven buffer, which lint rejects.
+    Here `mitC` is lint-clean and blackbox-free, the startpoint `a` is a shared input, the endpoint `g` a shared node,
+    the call succeeds — and the miter fails lint because `c0_b` / `c1_b` have no driver -/
+def mitC : Circuit :=
+  { nodes := [("a", { ty := some "input", out := some false }), ("b", { ty := some "input", out := some false }),
+              ("g", { ty := some "and", out := some true })],
+    edges := [("a", "g"), ("b", "g")] }
+theorem miter_may_fail_lint :
+    LintClean mitC ∧ mitC.bbs = [] ∧ "a" ∈ mitC.inputs ∧
+    (Tx.miter mitC (some mitC) (some ["a"]) (some ["g"]) id).toOption.map (fun m => lint m {} id)
+      = some Outcome.valueError ∧
+    (Tx.miter mitC (some mitC) (some ["a", "b"]) (some ["g"]) id).toOption.map (fun m => lint m {} id)
+      = some Outcome.ok :=
+  ⟨Limit.lintClean_of_checks mitC ⟨by decide, by decide, by decide⟩ (by decide) (by decide) (by decide),
+    rfl, by decide, by decide, by decide⟩
 
 /-! non-vacuity: a concrete ill-formed graph (fan-in on a blackbox output) and a clean one -/
 def bad : Circuit :=
